@@ -595,14 +595,16 @@ func (cs *ClientSession) Wait() error {
 func (cs *ClientSession) lookupTool(name string) *Tool {
 	cs.toolsCache.mu.Lock()
 	defer cs.toolsCache.mu.Unlock()
+	var found *Tool
+	var foundSeq uint64
 	for _, entry := range cs.toolsCache.cachedValues {
 		for _, t := range entry.result.Tools {
-			if t.Name == name {
-				return t
+			if t.Name == name && (found == nil || entry.seq > foundSeq) {
+				found, foundSeq = t, entry.seq
 			}
 		}
 	}
-	return nil
+	return found
 }
 
 // registerElicitationWaiter registers a waiter for an elicitation complete
